@@ -249,7 +249,7 @@ end
 /-- `cif_value_deserialize(blob, len, dest)`: the whole blob is one value; trailing words are ignored by the C
     (reported here so that the round-trip theorem can say there are none) -/
 def deserialize (parse : Str → Option NumbFields) (ws : List Word) : Option (V × List Word) :=
-  deser parse (ws.length + 1) ws
+  deser parse (2 * ws.length + 1) ws
 
 /-- words of a successfully written buffer, in writing order -/
 def WBuf.contents (b : WBuf) : List Word := b.words.reverse
